@@ -56,6 +56,21 @@ chk("C13", "texel (real process) + h_tb dumps",
     "Held on every root searched (96 quick / 3000 thorough, stratified over classes, half-move clocks, hash sizes, threads, table replacement and generation-abort sequences). Exactness is asserted only inside the 50-move margin; beyond it only what the rules imply.",
     "oracle tables = h_tb dumps that passed the Bellman sweep in this run; synthetic network",
     "DESIGN.md section 3 C13")
+chk("C04", "texel (real process) + refchess solver + h_tb dumps",
+    "runtime output monitor: every positive 'mate N' line, the final best move and final 'mate -N' of completed depth-limited searches judged by exact oracles (DTM tables verified in the same run, exhaustive mate solver up to 3-4 moves, mate-in-one enumeration at every depth 1..14)",
+    "Held on every search run (about 4000 quick / 1e5 thorough); claims no oracle can decide are counted as unchecked in the evidence, never as passes.",
+    "DTM dumps verified by the Bellman sweep in this run; refchess solver ignores draw claims (roots have clock 0, no history); full strength only",
+    "DESIGN.md section 3 C04")
+chk("C19", "h_bb",
+    "runtime invariant monitor: after (almost) every operation of seeded book-building histories the whole graph (negamax, depth, path errors, expansion costs, links, hashToParent) is recomputed from the defining equations by an independent model and compared node by node; save/load compared node by node; ASan slice",
+    "Held on every history run (232 quick / 1e4 thorough histories, ~2e5 operations, books up to ~3600 nodes incl. transpositions with several parents, mate/INVALID/IGNORE scores, pending marks, game-tree imports, three save/load modes). A full pass runs after every operation while the book has <=300 nodes, every ceil(nodes/300)-th operation above that, and always around imports and save/load.",
+    "graph API only (no real searches); cycles (books deeper than the half-move-clock saturation) are not explored; where the header comment and the repository's own passing unit test disagree the oracle follows the unit test (three documented places, see h_bb.cpp)",
+    "DESIGN.md section 3 C19")
+chk("C20", "h_csp",
+    "runtime differential monitor: CspSolver vs exhaustive enumeration (z3 fallback) on seeded random and structured constraint systems; ASan+UBSan slice",
+    "Held on every system generated (4e5 quick / 2e7 thorough). Both directions are checked (solvable <=> satisfiable) and every returned assignment is validated against all ranges, parities and constraints.",
+    "the enumeration oracle in h_csp.cpp; domain product capped at 4e6 as in the property's quantifier",
+    "DESIGN.md section 3 C20")
 
 
 def main():
@@ -91,6 +106,8 @@ def main():
             dict(name="refchess-cli", path="/verif/src/common/refchess_cli.cpp", serves_properties=["C03", "C04", "C11", "C13"], kind_free_text="line-protocol front end of the independent rules oracle"),
             dict(name="h_game", path="/verif/src/h_game.cpp", serves_properties=["C11"], kind_free_text="in-process harness: class Game with stub players vs a reference model on refchess"),
             dict(name="h_tb", path="/verif/src/h_tb.cpp", serves_properties=["C12", "C13", "C04"], kind_free_text="in-process multi-threaded harness: TBGenerator/TranspositionTable + independent mini rules engine; also serves verified DTM dumps to the python oracles"),
+            dict(name="h_bb", path="/verif/src/h_bb.cpp", serves_properties=["C19"], kind_free_text="in-process harness: BookBuild::Book via the declared test-friend class, independent graph model"),
+            dict(name="h_csp", path="/verif/src/h_csp.cpp", serves_properties=["C20"], kind_free_text="in-process harness: CspSolver vs enumeration/z3"),
             dict(name="h_rules", path="/verif/src/h_rules.cpp", serves_properties=["C01", "C02", "C17"], kind_free_text="in-process harness linking texellib + refchess oracle (rel and asan+ubsan builds)"),
         ],
         checks=checks,
